@@ -488,6 +488,87 @@ theorem daccRecv_ok (size : Nat) (o : RecvObs) (cls : Fault) (b b' : BSock) (out
         · omega
       · simp at h
 
+/-! ### the read loop over accepted recv steps -/
+
+/-- splitting a run: a run over `pre ++ [last]` is a run over `pre` followed by the last step -/
+theorem runMixed_snoc (cfg : Cfg) (s0 : List Ev) (last : MStep) : ∀ (pre : List MStep) (st : St) (rs : List Res)
+    (st' : St), runMixed cfg s0 (pre ++ [last]) st = some (rs, st') →
+    ∃ rs₁ mid r, runMixed cfg s0 pre st = some (rs₁, mid) ∧ runMixed cfg s0 [last] mid = some ([r], st') ∧
+      rs = rs₁ ++ [r] := by
+  intro pre
+  induction pre with
+  | nil =>
+    intro st rs st' h
+    simp only [List.nil_append] at h
+    cases last with
+    | call op seat =>
+      simp only [runMixed, Option.some.injEq, Prod.mk.injEq] at h
+      obtain ⟨a, b⟩ := h
+      subst a; subst b
+      exact ⟨[], st, _, rfl, by simp [runMixed], rfl⟩
+    | recvObs n o =>
+      simp only [runMixed] at h
+      split at h
+      · simp at h
+      · rename_i st1 hacc
+        simp only [Option.some.injEq, Prod.mk.injEq] at h
+        obtain ⟨a, b⟩ := h
+        subst a; subst b
+        exact ⟨[], st, _, rfl, by simp [runMixed, hacc], rfl⟩
+  | cons s pre ih =>
+    intro st rs st' h
+    cases s with
+    | call op seat =>
+      simp only [List.cons_append, runMixed] at h
+      split at h
+      · rename_i rs' s' hrun
+        simp only [Option.some.injEq, Prod.mk.injEq] at h
+        obtain ⟨a, b⟩ := h
+        subst a; subst b
+        obtain ⟨rs₁, mid, r, h1, h2, h3⟩ := ih _ _ _ hrun
+        exact ⟨(callRetry cfg op st).1 :: rs₁, mid, r, by simp [runMixed, h1], h2, by simp [h3]⟩
+      · simp at h
+    | recvObs n o =>
+      simp only [List.cons_append, runMixed] at h
+      split at h
+      · simp at h
+      · rename_i st1 hacc
+        split at h
+        · rename_i rs' s' hrun
+          simp only [Option.some.injEq, Prod.mk.injEq] at h
+          obtain ⟨a, b⟩ := h
+          subst a; subst b
+          obtain ⟨rs₁, mid, r, h1, h2, h3⟩ := ih _ _ _ hrun
+          exact ⟨o.toRes :: rs₁, mid, r, by simp [runMixed, hacc, h1], h2, by simp [h3]⟩
+        · simp at h
+
+/-- the caller's read loop over ANY accepted recv (and any framing calls in between): once a `recv(size)` with
+    `size > 0` has returned b'' the stream is exhausted, and everything handed over before is the whole stream -/
+theorem runMixed_drained (cfg : Cfg) (hrs : 0 < cfg.recvsize) (s0 : List Ev) (pre : List MStep) (size : Nat)
+    (hs : 0 < size) (o : RecvObs) (ho : o.res = some []) (st : St) (rs : List Res) (st' : St)
+    (h : runMixed cfg s0 (pre ++ [.recvObs size o]) st = some (rs, st')) :
+    handedMixed (pre ++ [.recvObs size o]) rs = st.view ∧ st'.view = [] := by
+  have hc := runMixed_conserves cfg hrs s0 _ st rs st' h
+  obtain ⟨rs₁, mid, r, -, h2, -⟩ := runMixed_snoc cfg s0 _ pre st rs st' h
+  simp only [runMixed] at h2
+  split at h2
+  · simp at h2
+  · rename_i st1 hacc
+    simp only [Option.some.injEq, Prod.mk.injEq, List.cons.injEq, and_true] at h2
+    obtain ⟨-, b⟩ := h2
+    subst b
+    obtain ⟨-, -, hcase⟩ := acceptRecv_sound size o mid st1 hacc
+    rcases hcase with ⟨a, -⟩ | ⟨v, a, b, -, d⟩
+    · rw [ho] at a; cases a
+    · rw [ho] at a
+      simp only [Option.some.injEq] at a
+      subst a
+      have hm := d hs rfl
+      rw [hm] at b
+      simp only [List.nil_append] at b
+      rw [b, List.append_nil] at hc
+      exact ⟨hc, b⟩
+
 /-! ### re-seating on the one object -/
 
 theorem dseat_ok (s0 : List Ev) (o : Option RecvObs) (b : BSock) :
